@@ -556,7 +556,7 @@ def _traverse(obj, keys):
     for key in keys:
         if type(obj) not in list_or_dict: return None
         try: obj = obj[key]
-        except (KeyError, IndexError): return None
+        except (KeyError, IndexError, TypeError): return None
     return obj
 
 def _extract(expr, *paths):
